@@ -1665,6 +1665,35 @@ class Interp:
         self.unknown_calls.add(cid)
         return self.havoc_call(st, args, dest_ty)
 
+    def apply_callable(self, st, f, argvals):
+        """apply a callable value: a closure (its body is run), a function item (a local fn's body is run; the
+        constructor of a tuple variant / tuple struct builds the value); None if not understood"""
+        if f.kind == "ref":
+            try:
+                f = self.read_loc(st, f.loc)
+            except Unsupported:
+                return None
+        if f.kind == "agg":
+            return self.call_closure(st, f, argvals)
+        if f.kind == "fn" and len(f.ids) == 1:
+            cid = next(iter(f.ids))
+            if "::{constructor#" in cid:
+                path = cid.split("::{constructor#")[0].split("::")
+                variant, tail = path[-1], "::".join(path[1:-1])
+                adt = self.P.adts.get(tail) or next((a for n, a in self.P.adts.items() if n.endswith("::" + tail) or tail.endswith("::" + n)), None)
+                if adt is not None and adt["kind"] == "Enum":
+                    for vi, v in enumerate(adt["variants"]):
+                        if v["name"] == variant and len(v["fields"]) == len(argvals):
+                            return EnumV(adt["name"], vi, tuple(argvals), len(adt["variants"]))
+                adt = self.P.adts.get("::".join(path[1:])) if adt is None else adt
+                if adt is not None and adt["kind"] == "Struct" and len(adt["variants"][0]["fields"]) == len(argvals):
+                    return AggV(adt["name"], list(argvals))
+                return None
+            callee = self.P.fns.get(cid)
+            if callee is not None and callee["argc"] == len(argvals) and self.call_stack.count(callee["name"]) < 2:
+                return self.run_fn(callee, list(argvals), st)
+        return None
+
     def call_closure(self, st, clos, argvals):
         """run the body of a closure value on the given arguments; None if the body is not available"""
         if clos.kind == "ref":
